@@ -2,6 +2,7 @@ package main
 
 import (
 	"fmt"
+	"strings"
 
 	"golang.org/x/tools/go/ssa"
 )
@@ -130,13 +131,18 @@ func (e *Enc) enterLoop(fr *Frame, li *loopInfo, st *State) *State {
 	written := e.endDry(fr, d)
 	// 3. havoc
 	h := st.clone()
+	loopFrame := spec != nil && spec.HasModifies
 	for _, k := range sortedKeys(written) {
+		if loopFrame && !strings.HasPrefix(k, "RV|") {
+			continue // declared loop frame: only the declared targets are havocked (below)
+		}
 		if _, ok := e.heapSort[k]; ok {
 			h.heap[k] = e.fresh(k, e.heapSort[k])
 			e.writeLog[k] = true
 		}
 	}
 	e.bumpAlloc(h)
+	li.written = written
 	for _, in := range li.header.Instrs {
 		phi, ok := in.(*ssa.Phi)
 		if !ok {
@@ -148,6 +154,17 @@ func (e *Enc) enterLoop(fr *Frame, li *loopInfo, st *State) *State {
 		}
 		fr.vals[phi] = e.freshVal(h, fr.prefix+phi.Name()+"!"+phi.Comment, phi.Type())
 	}
+	if loopFrame {
+		// targets are evaluated at the header of the arbitrary iteration (loop-carried variables have their header values)
+		for i, m := range spec.Modifies {
+			env := e.envFor(fr, h)
+			env.loop = li
+			if err := env.havocTarget(h, m); err != nil {
+				e.unsupportedf("%s modifies %s: %v", loopName, spec.ModSrc[i], err)
+			}
+		}
+	}
+	li.headerState = h.clone()
 	// 4. assume invariants
 	for i, inv := range invs {
 		env := e.envFor(fr, h)
@@ -177,12 +194,28 @@ func (e *Enc) backEdgeObligations(fr *Frame, b *ssa.BasicBlock, st *State, si in
 	s := b.Succs[si]
 	li := fr.loops[s.Index]
 	spec := e.loopSpecFor(fr, li)
-	if spec == nil || len(spec.Invariants) == 0 {
+	if spec == nil || (len(spec.Invariants) == 0 && !spec.HasModifies) {
 		return
 	}
 	cond := e.edgeCond(fr, b, st, si)
 	if cond == "false" {
 		return
+	}
+	if spec.HasModifies && li.headerState != nil && e.dry == 0 {
+		// loop frame: whatever the body wrote outside the declared targets is unchanged w.r.t. the header state
+		// (objects allocated during this iteration are exempt)
+		lname := fmt.Sprintf("loop%d", li.ordinal)
+		if fr.parent != nil {
+			lname = shortFn(fr.fn) + "/" + lname
+		}
+		fenv := e.envFor(fr, li.headerState)
+		fenv.loop = li
+		fp, err := fenv.footprintOfTargets(spec.Modifies)
+		if err != nil {
+			e.unsupportedf("%s modifies: %v", lname, err)
+		} else if !fp.all {
+			e.frameObligations(li.written, li.headerState, st, fp, lname+".frame:", lname+" modifies "+strings.Join(spec.ModSrc, ", "), cond)
+		}
 	}
 	// bind phis to the back-edge operands
 	saved := map[*ssa.Phi]*Val{}
